@@ -1,16 +1,37 @@
-"""Correspondence of the hand models (Model/Grid, MeshRemove, Offset, BoolGroup) with the real
-ladybug_geometry methods.  Exact agreement is required (inputs are chosen so that double
-arithmetic is exact, or Fractions are passed to the static methods)."""
+"""Correspondence of the hand models `Model/Grid.lean`, `Model/MeshRemove.lean` (C20),
+`Model/Offset.lean` (C19) and `Model/BoolGroup.lean` (C09) with the real library.
+
+C20  model.grid_vertices / grid_centroids / grid_faces / domain_dimensions   vs   the static
+     methods of Mesh2D and Mesh2D.from_grid;  model.remove_vertices(_full) / remove_faces_only /
+     vertex_pattern_from_faces   vs   MeshBase._remove_vertices / _remove_faces_only /
+     _vertex_pattern_from_remove_faces and the public Mesh2D.remove_vertices /
+     remove_faces_only;  model.stl_split   vs   STL.from_mesh3d;  the whole
+     Mesh2D.from_polygon_grid pipeline (domain dimensions -> grid -> removal -> cached areas
+     and centroids) stage by stage.
+C19  model.perimeter_quads / perimeter_quads_holes (which contain Model/Offset.segmentsOf,
+     quadOut, quadHole, holeQuads)   vs   Polygon2D.perimeter_core_by_offset, once with
+     prescribed (exactly representable) offset loops and once with the real offset.
+C09  model.bool_group   vs   the grouping loop of Face3D._from_bool_poly on laminar families of
+     rectangles with nesting depth 0 … 4.
+
+Inputs are chosen so that double arithmetic is exact (dyadic numbers) or Fractions are passed
+to the static methods; those comparisons are exact.  Streams with real-valued inputs are
+compared within 1e-9 (vertices) and are marked `~` in the histograms.
+
+Stand-alone:  /venv/bin/python /verif/tools/harness/corr/grid.py [C09|C19|C20] [seed] [tier]"""
+import math
+import os
 import random
 import sys
+import time
 from fractions import Fraction
 
-sys.path.insert(0, '/verif/tools/harness')
+_H = os.path.dirname(os.path.dirname(os.path.abspath(__file__)))
+if _H not in sys.path:
+    sys.path.insert(0, _H)
 import lbg  # noqa: E402
 
-lbg.LEAN_DIR = '/tmp/agents/p_c19c20c09/lean'
-
-from ladybug_geometry.geometry2d.pointvector import Point2D  # noqa: E402
+from ladybug_geometry.geometry2d.pointvector import Point2D, Vector2D  # noqa: E402
 from ladybug_geometry.geometry2d.mesh import Mesh2D  # noqa: E402
 from ladybug_geometry.geometry2d.polygon import Polygon2D  # noqa: E402
 from ladybug_geometry.geometry3d.mesh import Mesh3D  # noqa: E402
@@ -20,28 +41,60 @@ from ladybug_geometry.geometry3d.plane import Plane  # noqa: E402
 from ladybug_geometry.boolean import BooleanPolygon  # noqa: E402
 from ladybug_geometry.interop.stl import STL  # noqa: E402
 
-rng = random.Random(20260930)
+PROPS = ['C09', 'C19', 'C20']
+MODELS = ['LbgVerif/Model/Grid.lean', 'LbgVerif/Model/MeshRemove.lean',
+          'LbgVerif/Model/Offset.lean', 'LbgVerif/Model/BoolGroup.lean',
+          'LbgVerif/Model/Dispatch_Grid.lean']
+REAL = ['ladybug_geometry/geometry2d/mesh.py:Mesh2D._domain_dimensions,_grid_vertices,'
+        '_grid_faces,_grid_centroids,from_grid,from_polygon_grid,remove_vertices,'
+        'remove_faces_only',
+        'ladybug_geometry/_mesh.py:MeshBase._remove_vertices,_transfer_face_centroids_areas,'
+        '_remove_faces_only,_vertex_pattern_from_remove_faces',
+        'ladybug_geometry/interop/stl.py:STL.from_mesh3d',
+        'ladybug_geometry/geometry2d/polygon.py:Polygon2D.perimeter_core_by_offset,'
+        '_segments_from_vertices',
+        'ladybug_geometry/geometry3d/face.py:Face3D._from_bool_poly']
+TRUSTED = [
+    'C20: int(_dom / _dim) is compared on Fractions and on dyadic doubles (exact quotient); a '
+    'double quotient that rounds across an integer is outside the model and not generated',
+    'C20: from_polygon_grid — the inside pattern given to the model is computed with the real '
+    'Polygon2D.is_point_inside on the scaled polygon, as the method does (C05 covers the test)',
+    'C20: vertex / face colours and the face_pattern argument of _remove_vertices are not '
+    'part of the driver interface of the model and not compared',
+    'C19: Polygon2D.offset itself (acos route, Model/Offset.offsetMoveVec) has no driver entry; '
+    'the quads are compared given the offset loops the real code produced (within 1e-9) or '
+    'prescribed dyadic loops (exactly); the None-returning intersection checks are not modelled',
+    'C09: containment is the strict containment of the generated rectangles (gaps >= 1 >> tol); '
+    'polygon_relationship, the sort by area (areas pairwise distinct) and the lift to 3D are '
+    'not modelled']
+
 W = lbg.wnum
-R = lbg.rnum
-reqs, expect, label = [], [], []
+R_ = lbg.rnum
+QUICK_BUDGET, THOROUGH_BUDGET = 16.0, 240.0
+BATCH = 12000
+APPROX = Fraction(1, 10 ** 9)
 
 
-def add(op, args, exp, lab):
-    reqs.append((op, args))
-    expect.append(exp)
-    label.append(lab)
+# ====================================================================== helpers
+def num(x):
+    """Input number: float/int or 'n/d' string (exact rational given to the real code)."""
+    return Fraction(x) if isinstance(x, str) else x
 
 
 def pts(ps):
     return [[W(p.x), W(p.y)] for p in ps]
 
 
+def fpts(ps):
+    return [[Fraction(p.x), Fraction(p.y)] for p in ps]
+
+
 def canon(j):
     """Wire JSON -> comparable python (numbers as Fractions)."""
     if isinstance(j, bool):
         return j
-    if isinstance(j, (str,)):
-        return R(j)
+    if isinstance(j, str):
+        return R_(j)
     if isinstance(j, int):
         return Fraction(j)
     if isinstance(j, list):
@@ -49,92 +102,392 @@ def canon(j):
     return j
 
 
-# ---------------------------------------------------------------- grids
-def dy(den=8, lo=-40, hi=40):
-    return rng.randint(lo, hi) / float(den)
+def ints(j):
+    return [[int(i) for i in f] for f in j]
 
 
-for _ in range(150):
-    bx, by = dy(4), dy(4)
-    nx, ny = rng.randint(0, 7), rng.randint(0, 7)
-    xd, yd = rng.randint(1, 24) / 8.0, rng.randint(1, 24) / 8.0
-    if rng.random() < 0.1:
-        xd = -xd
-    v = Mesh2D._grid_vertices(Point2D(bx, by), nx, ny, xd, yd)
-    add('model.grid_vertices', [W(bx), W(by), nx, ny, W(xd), W(yd)],
-        [[Fraction(p.x), Fraction(p.y)] for p in v], 'grid_vertices')
-    c = Mesh2D._grid_centroids(Point2D(bx, by), nx, ny, xd, yd)
-    add('model.grid_centroids', [W(bx), W(by), nx, ny, W(xd), W(yd)],
-        [[Fraction(p.x), Fraction(p.y)] for p in c], 'grid_centroids')
-    f = Mesh2D._grid_faces(nx, ny)
-    add('model.grid_faces', [nx, ny], [[Fraction(i) for i in t] for t in f], 'grid_faces')
-
-for _ in range(300):
-    dom = Fraction(rng.randint(0, 4000), rng.choice([1, 3, 7, 8, 10, 100]))
-    dim = Fraction(rng.randint(1, 900), rng.choice([1, 3, 7, 8, 10, 100]))
-    if rng.random() < 0.15:
-        dom = dim * rng.randint(0, 12)          # exact multiples
-    if rng.random() < 0.05:
-        dom = -dom
-    try:
-        d2, n = Mesh2D._domain_dimensions(dom, dim)
-    except ZeroDivisionError:
-        continue
-    add('model.domain_dimensions', [W(dom), W(dim)], [Fraction(d2), Fraction(n)],
-        'domain_dimensions')
+def close(a, b, tol):
+    """Same shape and numbers within tol (tol = 0: exact)."""
+    if not lbg.same_shape(a, b):
+        return False
+    fa, fb = lbg.flat_numbers(a), lbg.flat_numbers(b)
+    return len(fa) == len(fb) and all(
+        abs(x - y) <= tol * (1 + abs(x)) for x, y in zip(fa, fb))
 
 
-# ---------------------------------------------------------------- removal
-def rand_mesh():
-    nv = rng.randint(4, 14)
-    nf = rng.randint(1, 12)
-    faces = []
-    for _ in range(nf):
-        k = rng.choice([3, 4])
-        faces.append(tuple(rng.sample(range(nv), k)))
-    return nv, faces
+def first_diff(names, models, reals, tol=0):
+    for nm, m, r in zip(names, models, reals):
+        if not close(m, r, tol):
+            return nm, m, r
+    return None
 
 
-for _ in range(300):
-    nv, faces = rand_mesh()
-    verts = [Point2D(float(i), 0.0) for i in range(nv)]
-    mesh = Mesh2D(verts, faces)
-    mesh._face_centroids = tuple(range(len(faces)))
-    mesh._face_areas = tuple(range(len(faces)))
-    p_keep = rng.choice([0.3, 0.6, 0.85, 1.0])
-    pat = [rng.random() < p_keep for _ in range(nv)]
-    nvs, nfs, ncol, ncent, narea, fpat = mesh._remove_vertices(pat)
-    assert list(ncent) == list(narea)
-    add('model.remove_vertices', [nv, [list(f) for f in faces], pat],
-        [[[Fraction(i) for i in f] for f in nfs], list(fpat)], 'remove_vertices')
-    add('model.remove_vertices_full', [nv, [list(f) for f in faces], pat],
-        [[Fraction(int(p.x)) for p in nvs], [[Fraction(i) for i in f] for f in nfs],
-         [Fraction(i) for i in ncent], list(fpat)], 'remove_vertices_full')
-    fp = [rng.random() < 0.6 for _ in faces]
-    nfs2, ncol2, ncent2, narea2 = mesh._remove_faces_only(fp)
-    add('model.remove_faces_only', [[list(f) for f in faces], fp],
-        [[[Fraction(i) for i in f] for f in nfs2], [Fraction(i) for i in ncent2]],
-        'remove_faces_only')
-    vp = mesh._vertex_pattern_from_remove_faces(fp)
-    add('model.vertex_pattern_from_faces', [nv, [list(f) for f in faces], fp], list(vp),
-        'vertex_pattern_from_faces')
-
-# STL split: the triangles STL.from_mesh3d writes
-for _ in range(60):
-    nv, faces = rand_mesh()
-    verts = [Point3D(float(i), float(i * i % 7), 0.0) for i in range(nv)]
-    m3 = Mesh3D(verts, faces)
-    stl = STL.from_mesh3d(m3)
-    fv = [[int(p.x) for p in tri] for tri in stl.face_vertices]
-    k = 0
-    for f in faces:
-        n_t = 1 if len(f) == 3 else 2
-        add('model.stl_split', [list(f)],
-            [[Fraction(i) for i in t] for t in fv[k:k + n_t]], 'stl_split')
-        k += n_t
+def _show(x, lim=160):
+    def f(v):
+        if isinstance(v, Fraction):
+            return float(v) if v.denominator != 1 else int(v)
+        if isinstance(v, (list, tuple)):
+            return [f(a) for a in v]
+        if isinstance(v, dict):
+            return dict((k, f(a)) for k, a in v.items())
+        return v
+    s = repr(f(x))
+    return s if len(s) <= lim else s[:lim] + '…'
 
 
-# ---------------------------------------------------------------- perimeter quads
+# ====================================================================== kinds
+class Kind(object):
+    """case(inp) -> (requests, real) runs the real code; judge(inp, answers, real) ->
+    None | 'tie' | (what_class, detail, model)."""
+    prop = None
+
+    def case(self, inp):
+        raise NotImplementedError
+
+    def judge(self, inp, answers, real):
+        raise NotImplementedError
+
+    def shrink(self, inp):
+        return []
+
+    def nontrivial(self, inp, real):
+        return True
+
+    def size(self, inp):
+        return 0
+
+    def branch(self, inp, real):
+        return 'ok'
+
+
+def _vals(answers):
+    for ok, v in answers:
+        if not ok:
+            raise _ModelError(str(v)[:200])
+    return [canon(v) for ok, v in answers]
+
+
+class _ModelError(Exception):
+    pass
+
+
+class Grid(Kind):
+    """_grid_vertices / _grid_centroids / _grid_faces and Mesh2D.from_grid."""
+    prop = 'C20'
+
+    def case(self, inp):
+        bx, by, nx, ny, xd, yd = (inp[k] for k in ('bx', 'by', 'nx', 'ny', 'xd', 'yd'))
+        base = Point2D(bx, by)
+        v = Mesh2D._grid_vertices(base, nx, ny, xd, yd)
+        c = Mesh2D._grid_centroids(base, nx, ny, xd, yd)
+        f = Mesh2D._grid_faces(nx, ny)
+        real = {'vertices': fpts(v), 'centroids': fpts(c),
+                'faces': [[Fraction(i) for i in t] for t in f], 'from_grid': None}
+        if nx >= 1 and ny >= 1:
+            m = Mesh2D.from_grid(base, nx, ny, xd, yd)
+            real['from_grid'] = [fpts(m.vertices), [[Fraction(i) for i in t] for t in m.faces],
+                                 fpts(m.face_centroids), Fraction(m._face_areas)]
+        a = [W(bx), W(by), nx, ny, W(xd), W(yd)]
+        return [('model.grid_vertices', a), ('model.grid_centroids', a),
+                ('model.grid_faces', [nx, ny])], real
+
+    def judge(self, inp, answers, real):
+        mv, mc, mf = _vals(answers)
+        tol = APPROX if inp.get('approx') else 0
+        d = first_diff(['_grid_vertices', '_grid_centroids', '_grid_faces'], [mv, mc, mf],
+                       [real['vertices'], real['centroids'], real['faces']], tol)
+        if d is None and real['from_grid'] is not None:
+            area = Fraction(inp['xd']) * Fraction(inp['yd'])
+            d = first_diff(['from_grid.vertices', 'from_grid.faces', 'from_grid.face_centroids',
+                            'from_grid.face_areas'], [mv, mf, mc, area], real['from_grid'],
+                           tol if tol else 0)
+        if d is None:
+            return None
+        return ('%s differs' % d[0], 'nx=%d ny=%d xd=%r yd=%r model %s real %s' % (
+            inp['nx'], inp['ny'], inp['xd'], inp['yd'], _show(d[1]), _show(d[2])), _show(d[1], 600))
+
+    def shrink(self, inp):
+        out = []
+        for k in ('nx', 'ny'):
+            for v in (inp[k] // 2, inp[k] - 1):
+                if 0 <= v < inp[k]:
+                    d = dict(inp)
+                    d[k] = v
+                    out.append(d)
+        return out
+
+    def nontrivial(self, inp, real):
+        return inp['nx'] >= 1 and inp['ny'] >= 1
+
+    def size(self, inp):
+        return (inp['nx'] + 1) * (inp['ny'] + 1)
+
+    def branch(self, inp, real):
+        return 'empty grid' if inp['nx'] == 0 or inp['ny'] == 0 else 'grid'
+
+
+class DomainDimensions(Kind):
+    prop = 'C20'
+
+    def case(self, inp):
+        dom, dim = num(inp['dom']), num(inp['dim'])
+        try:
+            d2, n = Mesh2D._domain_dimensions(dom, dim)
+            real = [Fraction(d2), Fraction(n)]
+        except ZeroDivisionError:
+            real = 'ZeroDivisionError'
+        return [('model.domain_dimensions', [W(dom), W(dim)])], real
+
+    def judge(self, inp, answers, real):
+        ok, val = answers[0]
+        model = canon(val) if ok else ('ZeroDivisionError' if 'ZeroDivision' in str(val)
+                                       else 'error: %s' % str(val)[:100])
+        if model == real:
+            return None
+        # rounding: the double quotient is an integer although the exact one is not (or v.v.)
+        if not isinstance(inp['dom'], str) and isinstance(real, list) and isinstance(model, list):
+            q = Fraction(inp['dom']) / Fraction(inp['dim'])
+            if q != Fraction(inp['dom'] / inp['dim']) and \
+                    abs(q - round(q)) <= Fraction(1, 10 ** 9) * max(1, abs(q)):
+                return 'tie'
+            if model[1] == real[1] and close(model, real, APPROX):
+                return None       # same cell count, dimension rounded in the last place
+        return ('result differs', 'dom=%s dim=%s model %s real %s' % (
+            inp['dom'], inp['dim'], _show(model), _show(real)), _show(model))
+
+    def nontrivial(self, inp, real):
+        return isinstance(real, list) and real[1] not in (0, 1)
+
+    def branch(self, inp, real):
+        if not isinstance(real, list):
+            return real
+        q = Fraction(inp['dom']) / Fraction(inp['dim'])
+        if real[1] < 0:
+            return 'negative'
+        if q < 1:
+            return 'int()==0 -> 1'
+        return 'exact multiple' if q.denominator == 1 else 'truncated'
+
+
+class Remove(Kind):
+    """_remove_vertices, _remove_faces_only, _vertex_pattern_from_remove_faces (+ the public
+    wrappers).  Vertex i is Point2D(i, 0); face centroids / areas carry the face number."""
+    prop = 'C20'
+
+    def case(self, inp):
+        nv, faces, pat, fp = inp['nv'], [tuple(f) for f in inp['faces']], inp['pat'], inp['fpat']
+        verts = [Point2D(float(i), 0.0) for i in range(nv)]
+        mesh = Mesh2D(verts, faces)
+        mesh._face_centroids = tuple(range(len(faces)))
+        mesh._face_areas = tuple(range(len(faces)))
+        nvs, nfs, ncol, ncent, narea, fpat = mesh._remove_vertices(list(pat))
+        real = {'rv': [ints(nfs), list(fpat)],
+                'rv_full': [[int(p.x) for p in nvs], ints(nfs), [int(i) for i in ncent],
+                            list(fpat)],
+                'areas': [int(i) for i in narea]}
+        nfs2, ncol2, ncent2, narea2 = mesh._remove_faces_only(list(fp))
+        real['rfo'] = [ints(nfs2), [int(i) for i in ncent2]]
+        real['rfo_areas'] = [int(i) for i in narea2]
+        real['vp'] = list(mesh._vertex_pattern_from_remove_faces(list(fp)))
+        # public wrappers (a mesh needs at least one face)
+        real['pub_rv'] = real['pub_rfo'] = None
+        if len(nfs) > 0:
+            m2, fpat2 = mesh.remove_vertices(list(pat))
+            real['pub_rv'] = [[int(p.x) for p in m2.vertices], ints(m2.faces),
+                              [int(i) for i in m2._face_centroids], list(fpat2)]
+        if len(nfs2) > 0:
+            m3 = mesh.remove_faces_only(list(fp))
+            real['pub_rfo'] = [ints(m3.faces), [int(i) for i in m3._face_centroids]]
+        fl = [list(f) for f in faces]
+        return [('model.remove_vertices', [nv, fl, list(pat)]),
+                ('model.remove_vertices_full', [nv, fl, list(pat)]),
+                ('model.remove_faces_only', [fl, list(fp)]),
+                ('model.vertex_pattern_from_faces', [nv, fl, list(fp)])], real
+
+    @staticmethod
+    def _norm(v):
+        """wire answer -> ints / bools."""
+        if isinstance(v, bool):
+            return v
+        if isinstance(v, (int, str)):
+            return int(Fraction(v))
+        return [Remove._norm(x) for x in v]
+
+    def judge(self, inp, answers, real):
+        for ok, v in answers:
+            if not ok:
+                raise _ModelError(str(v)[:200])
+        rv, rvf, rfo, vp = [self._norm(v) for ok, v in answers]
+        names = ['_remove_vertices (faces, face_pattern)',
+                 '_remove_vertices (vertices, faces, face data, face_pattern)',
+                 '_remove_faces_only', '_vertex_pattern_from_remove_faces']
+        reals = [real['rv'], real['rv_full'], real['rfo'], real['vp']]
+        models = [rv, rvf, rfo, vp]
+        if real['areas'] != real['rv_full'][2] or real['rfo_areas'] != real['rfo'][1]:
+            return ('face areas and face centroids filtered differently', 'areas %s centroids %s' % (
+                real['areas'], real['rv_full'][2]), None)
+        if real['pub_rv'] is not None:
+            names.append('Mesh2D.remove_vertices')
+            reals.append(real['pub_rv'])
+            models.append(rvf)
+        if real['pub_rfo'] is not None:
+            names.append('Mesh2D.remove_faces_only')
+            reals.append(real['pub_rfo'])
+            models.append(rfo)
+        for nm, m, r in zip(names, models, reals):
+            if m != r:
+                return ('%s differs' % nm, 'nv=%d faces=%s pat=%s fpat=%s model %s real %s' % (
+                    inp['nv'], inp['faces'], _bits(inp['pat']), _bits(inp['fpat']),
+                    _show(m), _show(r)), m)
+        return None
+
+    def shrink(self, inp):
+        out = []
+        nf = len(inp['faces'])
+        for j in range(nf):
+            if nf > 1:
+                d = dict(inp)
+                d['faces'] = inp['faces'][:j] + inp['faces'][j + 1:]
+                d['fpat'] = inp['fpat'][:j] + inp['fpat'][j + 1:]
+                out.append(d)
+        used = set(i for f in inp['faces'] for i in f)
+        for v in range(inp['nv']):          # drop an unused vertex
+            if v not in used and inp['nv'] > 4:
+                d = dict(inp)
+                d['nv'] = inp['nv'] - 1
+                d['pat'] = inp['pat'][:v] + inp['pat'][v + 1:]
+                d['faces'] = [[i - 1 if i > v else i for i in f] for f in inp['faces']]
+                out.append(d)
+        return out
+
+    def nontrivial(self, inp, real):
+        fp = real['rv'][1]
+        return any(fp) and not all(fp)
+
+    def size(self, inp):
+        return len(inp['faces']) * 20 + inp['nv']
+
+    def branch(self, inp, real):
+        fp = real['rv'][1]
+        return 'all faces kept' if all(fp) else ('no face kept' if not any(fp) else 'some faces kept')
+
+
+def _bits(p):
+    return ''.join('1' if b else '0' for b in p)
+
+
+class StlSplit(Kind):
+    prop = 'C20'
+
+    def case(self, inp):
+        nv, faces = inp['nv'], [tuple(f) for f in inp['faces']]
+        verts = [Point3D(float(i), float(i * i % 7), 0.0) for i in range(nv)]
+        stl = STL.from_mesh3d(Mesh3D(verts, faces))
+        fv = [[int(p.x) for p in tri] for tri in stl.face_vertices]
+        return [('model.stl_split', [list(f)]) for f in faces], \
+            {'tris': fv, 'normals': len(stl.face_normals)}
+
+    def judge(self, inp, answers, real):
+        for ok, v in answers:
+            if not ok:
+                raise _ModelError(str(v)[:200])
+        model = [[int(i) for i in t] for ok, v in answers for t in v]
+        if model != real['tris']:
+            return ('triangles differ', 'faces=%s model %s real %s' % (inp['faces'], model,
+                                                                        real['tris']), model)
+        if real['normals'] != len(model):
+            return ('number of normals differs', '%d normals for %d triangles' % (
+                real['normals'], len(model)), model)
+        return None
+
+    def shrink(self, inp):
+        return [{'nv': inp['nv'], 'faces': [f]} for f in inp['faces']] if len(inp['faces']) > 1 \
+            else []
+
+    def nontrivial(self, inp, real):
+        return any(len(f) == 4 for f in inp['faces'])
+
+    def size(self, inp):
+        return len(inp['faces'])
+
+    def branch(self, inp, real):
+        k = set(len(f) for f in inp['faces'])
+        return 'tri+quad' if len(k) == 2 else ('quads' if 4 in k else 'triangles')
+
+
+class Pipeline(Kind):
+    """Mesh2D.from_polygon_grid, stage by stage; every stage of the model is fed the real
+    intermediate value, so one batch suffices and the first differing stage is named."""
+    prop = 'C20'
+
+    def case(self, inp):
+        poly = Polygon2D([Point2D(*p) for p in inp['poly']])
+        xd, yd = inp['xd'], inp['yd']
+        try:
+            mesh = Mesh2D.from_polygon_grid(poly, xd, yd)
+        except AssertionError:
+            return [], None         # no cell inside the polygon: 'Mesh must have … one face'
+        dmx, dmy = poly.max.x - poly.min.x, poly.max.y - poly.min.y
+        rxd, nx = Mesh2D._domain_dimensions(dmx, xd)
+        ryd, ny = Mesh2D._domain_dimensions(dmy, yd)
+        verts = Mesh2D._grid_vertices(poly.min, nx, ny, rxd, ryd)
+        faces = Mesh2D._grid_faces(nx, ny)
+        tol_pt = Vector2D(0.0000001, 0.0000001)
+        scaled = Polygon2D(tuple(pt.scale(1.000001, poly.min) - tol_pt for pt in poly.vertices))
+        pattern = [scaled.is_point_inside(_v) for _v in verts]
+        fa = mesh._face_areas
+        real = {'dd': [[Fraction(rxd), Fraction(nx)], [Fraction(ryd), Fraction(ny)]],
+                'vertices': fpts(mesh.vertices),
+                'faces': [[Fraction(i) for i in f] for f in mesh.faces],
+                'centroids': fpts(mesh._face_centroids),
+                'area_centroids': None if mesh._face_area_centroids is None else True,
+                'areas': Fraction(fa) if isinstance(fa, (int, float)) else
+                [Fraction(a) for a in fa],
+                'recomputed': sorted(set(Fraction(Mesh2D._get_area(
+                    [mesh.vertices[i] for i in f])) for f in mesh.faces)),
+                'requested': Fraction(xd) * Fraction(yd), 'n': [nx, ny]}
+        g = [W(poly.min.x), W(poly.min.y), nx, ny, W(rxd), W(ryd)]
+        return [('model.domain_dimensions', [W(dmx), W(xd)]),
+                ('model.domain_dimensions', [W(dmy), W(yd)]),
+                ('model.grid_vertices', g), ('model.grid_centroids', g),
+                ('model.remove_vertices_full',
+                 [len(verts), [list(f) for f in faces], pattern])], real
+
+    def judge(self, inp, answers, real):
+        if real is None:
+            return None
+        ddx, ddy, gv, gc, rm = _vals(answers)
+        if [ddx, ddy] != real['dd']:
+            return ('_domain_dimensions differs', 'model %s real %s' % (
+                _show([ddx, ddy]), _show(real['dd'])), _show([ddx, ddy]))
+        keep_v, new_faces, keep_f = [int(i) for i in rm[0]], rm[1], [int(i) for i in rm[2]]
+        cell = ddx[0] * ddy[0]
+        stages = [('vertices', [gv[i] for i in keep_v], real['vertices']),
+                  ('faces', new_faces, real['faces']),
+                  ('face_centroids', [gc[i] for i in keep_f], real['centroids']),
+                  ('face_areas (corrected cell area)', cell, real['areas']),
+                  ('area of the faces', [cell], real['recomputed'])]
+        for nm, m, r in stages:
+            if m != r:
+                return ('from_polygon_grid: %s differ' % nm, 'poly=%s xd=%r yd=%r model %s real %s'
+                        % (inp['poly'], inp['xd'], inp['yd'], _show(m), _show(r)), _show(m, 600))
+        return None
+
+    def nontrivial(self, inp, real):
+        return real is not None and \
+            real['requested'] != real['dd'][0][0] * real['dd'][1][0] and \
+            len(real['faces']) < real['n'][0] * real['n'][1]
+
+    def size(self, inp):
+        return len(inp['poly'])
+
+    def branch(self, inp, real):
+        if real is None:
+            return 'no cell inside (AssertionError, skipped)'
+        full = len(real['faces']) == real['n'][0] * real['n'][1]
+        return 'all cells inside' if full else 'cells removed'
+
+
 class StubPoly(Polygon2D):
     """Polygon2D whose offset() returns a prescribed loop (exactly representable), so that the
     quad-building loops of perimeter_core_by_offset are exercised with exact arithmetic."""
@@ -143,14 +496,456 @@ class StubPoly(Polygon2D):
         return self._stub_inner
 
 
-def lattice_convex(cx, cy, r, n, cw=False):
+class Quads(Kind):
+    """perimeter_core_by_offset.  inp: outer, inner (None = use the real offset), holes =
+    None | [[hole, hole_offset | None], …], distance."""
+    prop = 'C19'
+
+    def case(self, inp):
+        stub = inp['inner'] is not None
+        if stub:
+            poly = StubPoly([Point2D(*p) for p in inp['outer']])
+            poly._stub_inner = Polygon2D([Point2D(*p) for p in inp['inner']])
+        else:
+            poly = Polygon2D([Point2D(*p) for p in inp['outer']])
+        holes = None
+        if inp['holes'] is not None:
+            holes = []
+            for h, ho in inp['holes']:
+                if stub:
+                    hp = StubPoly([Point2D(*p) for p in h])
+                    hp._stub_inner = Polygon2D([Point2D(*p) for p in ho])
+                else:
+                    hp = Polygon2D([Point2D(*p) for p in h])
+                holes.append(hp)
+        per, core = Polygon2D.perimeter_core_by_offset(poly, inp['distance'], holes)
+        if per is None:
+            return [], None
+        real = [fpts(q.vertices) for q in per]
+        if holes is None:
+            return [('model.perimeter_quads', [pts(poly.vertices), pts(core[0].vertices)])], real
+        return [('model.perimeter_quads_holes', [
+            pts(poly.vertices), pts(core[0].vertices),
+            [[pts(hh.vertices), pts(cc.vertices)] for hh, cc in zip(holes, core[1:])]])], real
+
+    def judge(self, inp, answers, real):
+        if real is None:
+            return None
+        (model,) = _vals(answers)
+        tol = 0 if inp['inner'] is not None else APPROX
+        if close(model, real, tol):
+            return None
+        if len(model) != len(real):
+            cls = 'number of quads differs'
+        else:
+            bad = [k for k, (m, r) in enumerate(zip(model, real)) if not close(m, r, tol)]
+            n_outer = len(inp['outer'])
+            where = 'outer loop' if bad[0] < n_outer else 'hole'
+            m, r = model[bad[0]], real[bad[0]]
+            same_set = sorted(map(tuple, m)) == sorted(map(tuple, r))
+            cls = 'quad of %s: %s' % (where, 'vertex order differs' if same_set or tol
+                                      else 'vertices differ')
+        return (cls, 'outer=%s holes=%s model %s real %s' % (
+            inp['outer'], 'None' if inp['holes'] is None else len(inp['holes']),
+            _show(model), _show(real)), _show(model, 600))
+
+    def shrink(self, inp):
+        out = []
+        if inp['holes']:
+            for j in range(len(inp['holes'])):
+                d = dict(inp)
+                d['holes'] = inp['holes'][:j] + inp['holes'][j + 1:]
+                out.append(d)
+        return out
+
+    def nontrivial(self, inp, real):
+        return real is not None and (inp['holes'] is not None and len(inp['holes']) > 0)
+
+    def size(self, inp):
+        return len(inp['outer']) + sum(len(h[0]) for h in (inp['holes'] or []))
+
+    def branch(self, inp, real):
+        if real is None:
+            return 'offset returns None (skipped)'
+        o = 'cw' if Polygon2D([Point2D(*p) for p in inp['outer']]).is_clockwise else 'ccw'
+        if inp['holes'] is None:
+            return 'holes=None outer %s' % o
+        hs = sorted(set('cw' if Polygon2D([Point2D(*p) for p in h]).is_clockwise else 'ccw'
+                        for h, _ in inp['holes']))
+        return 'outer %s holes %s' % (o, '+'.join(hs) if hs else '[]')
+
+
+def _area(r):
+    return (r[2] - r[0]) * (r[3] - r[1])
+
+
+def _contains(a, b):
+    return a[0] < b[0] and a[1] < b[1] and b[2] < a[2] and b[3] < a[3]
+
+
+class BoolGroup(Kind):
+    """inp: rects = [[x0, y0, x1, y1], …] (laminar family, distinct areas, in the order the
+    regions are handed over), rev = [bool] orientation of each loop."""
+    prop = 'C09'
+
+    def case(self, inp):
+        rects = [tuple(r) for r in inp['rects']]
+        regions = []
+        for r, rv in zip(rects, inp['rev']):
+            loop = [(r[0], r[1]), (r[2], r[1]), (r[2], r[3]), (r[0], r[3])]
+            if rv:
+                loop.reverse()
+            regions.append(loop)
+        faces = Face3D._from_bool_poly(BooleanPolygon(regions), Plane(), 0.01)
+        srt = sorted(rects, key=_area, reverse=True)
+
+        def ident(loop3d):
+            xs = [p.x for p in loop3d]
+            ys = [p.y for p in loop3d]
+            return srt.index((min(xs), min(ys), max(xs), max(ys)))
+
+        real = []
+        for f in faces:
+            real.append([ident(f.boundary)] + [ident(hh) for hh in (f.holes or ())])
+        n = len(srt)
+        inside = [[_contains(srt[a], srt[b]) for b in range(n)] for a in range(n)]
+        depth = max(sum(inside[a][b] for a in range(n)) for b in range(n)) if n else 0
+        return [('model.bool_group', [n, inside])], {'groups': real, 'depth': depth}
+
+    def judge(self, inp, answers, real):
+        ok, val = answers[0]
+        if not ok:
+            raise _ModelError(str(val)[:200])
+        model = [[int(i) for i in g] for g in val]
+        if model == real['groups']:
+            return None
+        if sorted(sorted(g) for g in model) == sorted(sorted(g) for g in real['groups']):
+            cls = 'same groups in a different order'
+        elif len(model) != len(real['groups']):
+            cls = 'number of faces differs'
+        else:
+            cls = 'holes assigned differently'
+        return (cls, 'rects (sorted by area) %s: model %s real %s' % (
+            sorted([tuple(r) for r in inp['rects']], key=_area, reverse=True), model,
+            real['groups']), model)
+
+    def shrink(self, inp):
+        out = []
+        for j in range(len(inp['rects'])):
+            if len(inp['rects']) > 2:
+                out.append({'rects': inp['rects'][:j] + inp['rects'][j + 1:],
+                            'rev': inp['rev'][:j] + inp['rev'][j + 1:]})
+        return out
+
+    def nontrivial(self, inp, real):
+        return real['depth'] >= 1
+
+    def size(self, inp):
+        return len(inp['rects'])
+
+    def branch(self, inp, real):
+        return 'nesting depth %d' % real['depth']
+
+
+KINDS = {'grid': Grid(), 'domain_dimensions': DomainDimensions(), 'remove': Remove(),
+         'stl_split': StlSplit(), 'from_polygon_grid': Pipeline(),
+         'perimeter_quads': Quads(), 'bool_group': BoolGroup()}
+
+
+# ====================================================================== engine
+class _Engine(object):
+    def __init__(self, ctx, prop):
+        self.ctx, self.prop = ctx, prop
+        self.t0 = time.time()
+        thorough = ctx.tier == 'thorough' or bool(getattr(ctx, 'broken', None))
+        self.thorough = thorough
+        budget = THOROUGH_BUDGET if thorough else QUICK_BUDGET
+        self.t_end = min(getattr(ctx, 'deadline', self.t0 + budget), self.t0 + budget)
+        self.t_gen = self.t0 + 0.35 * max(0.0, self.t_end - self.t0)
+        self.cases = []          # (kind, inp, stream, requests, real)
+        self.dis = {}            # signature -> disagreement (smallest seen)
+        self.hist = {'kind': {}, 'stream': {}, 'size': {}, 'branch': {}, 'outcome': {}}
+        self.requests = self.comparisons = self.nontrivial = self.ties = 0
+        self.samples = []
+        self.tie_samples = []
+
+    def more(self):
+        return time.time() < self.t_gen
+
+    def count(self, h, k):
+        self.hist.setdefault(h, {})
+        self.hist[h][k] = self.hist[h].get(k, 0) + 1
+
+    def record(self, kind, inp, cls, detail, reqs, model, real):
+        sig = '%s|%s' % (kind, cls)
+        d = {'signature': sig, 'what': ('%s: %s' % (sig, detail))[:700],
+             'op': reqs[0][0] if reqs else None, 'args': reqs[0][1] if reqs else None,
+             'model': model, 'real': real, 'seed': self.ctx.seed, 'kind': kind, 'input': inp}
+        old = self.dis.get(sig)
+        if old is None or KINDS[kind].size(inp) < KINDS[old['kind']].size(old['input']):
+            self.dis[sig] = d
+        return d
+
+    def add(self, kind, inp, stream='-'):
+        k = KINDS[kind]
+        if k.prop != self.prop:
+            return
+        try:
+            reqs, real = k.case(inp)
+        except Exception as e:      # the real code raised something the model does not know
+            self.comparisons += 1
+            self.count('kind', kind)
+            self.count('outcome', 'raises ' + type(e).__name__)
+            self.record(kind, inp, 'raises %s' % type(e).__name__, '%s on %s' % (
+                str(e)[:150], _brief(inp)), [], None, 'raises %s' % type(e).__name__)
+            return
+        self.cases.append((kind, inp, stream, reqs, real))
+
+    def evaluate(self, cases):
+        flat = [r for c in cases for r in c[3]]
+        ans = []
+        for s in range(0, len(flat), BATCH):
+            ans.extend(self.ctx.driver.run(flat[s:s + BATCH]))
+        out, pos = [], 0
+        for (kind, inp, stream, reqs, real) in cases:
+            a = ans[pos:pos + len(reqs)]
+            pos += len(reqs)
+            try:
+                out.append(KINDS[kind].judge(inp, a, real))
+            except _ModelError as e:
+                out.append(('model error', str(e), None))
+            except Exception as e:
+                out.append(('judge crashed %s' % type(e).__name__, str(e)[:200], None))
+        return out
+
+    def run(self):
+        verdicts = self.evaluate(self.cases)
+        for (kind, inp, stream, reqs, real), v in zip(self.cases, verdicts):
+            k = KINDS[kind]
+            self.requests += len(reqs)
+            self.comparisons += 1
+            self.count('kind', kind)
+            self.count('stream', stream)
+            self.count('size', '%s %03d' % (kind, min(k.size(inp), 300)))
+            try:
+                self.count('branch', '%s: %s' % (kind, k.branch(inp, real)))
+                nt = bool(k.nontrivial(inp, real))
+            except Exception:
+                nt = False
+            if v == 'tie':
+                self.ties += 1
+                self.count('outcome', 'float tie')
+                if len(self.tie_samples) < 3:
+                    self.tie_samples.append({'kind': kind, 'stream': stream, 'input': inp})
+                continue
+            self.nontrivial += 1 if nt else 0
+            if v is None:
+                self.count('outcome', 'agree')
+                if nt and len(self.samples) < 3 and k.size(inp) <= 12 and \
+                        kind not in [s['kind'] for s in self.samples]:
+                    self.samples.append({'kind': kind, 'input': inp,
+                                         'ops': sorted(set(r[0] for r in reqs)),
+                                         'real': _show(_plain(real), 300)})
+                continue
+            self.count('outcome', 'DISAGREE')
+            self.count('disagree_by_stream', '%s @ %s' % (kind, stream))
+            self.record(kind, inp, v[0], v[1], reqs, v[2], _show(_plain(real), 600))
+        for sig in sorted(self.dis):
+            self.dis[sig] = self.shrink(self.dis[sig])
+        return {
+            'requests': self.comparisons, 'model_requests': self.requests,
+            'nontrivial': self.nontrivial, 'rule': RULES[self.prop],
+            'disagreements': [self.dis[s] for s in sorted(self.dis)],
+            'float_ties': self.ties, 'histograms': self.hist, 'samples': self.samples,
+            'float_tie_samples': self.tie_samples,
+            'seconds': round(time.time() - self.t0, 1)}
+
+    def one(self, kind, inp):
+        sub = _Engine(self.ctx, KINDS[kind].prop)
+        sub.t_end = self.t_end
+        sub.add(kind, inp)
+        if sub.dis:
+            return list(sub.dis.values())[0]
+        if not sub.cases:
+            return None
+        (v,) = sub.evaluate(sub.cases)
+        if v is None or v == 'tie':
+            return v
+        (kind, inp, stream, reqs, real) = sub.cases[0]
+        return sub.record(kind, inp, v[0], v[1], reqs, v[2], _show(_plain(real), 600))
+
+    def shrink(self, d):
+        kind = d['kind']
+        k = KINDS[kind]
+        for _ in range(6):
+            if time.time() + 5 > self.t_end:
+                break
+            cands = k.shrink(d['input'])[:400]
+            if not cands:
+                break
+            sub = _Engine(self.ctx, k.prop)
+            for c in cands:
+                sub.add(kind, c)
+            found = [x for x in sub.dis.values() if x['signature'] == d['signature']]
+            if sub.cases:
+                for (kd, inp, stream, reqs, real), v in zip(sub.cases, sub.evaluate(sub.cases)):
+                    if v is not None and v != 'tie' and '%s|%s' % (kd, v[0]) == d['signature']:
+                        found.append(sub.record(kd, inp, v[0], v[1], reqs, v[2],
+                                                _show(_plain(real), 600)))
+            if not found:
+                break
+            d = min(found, key=lambda x: k.size(x['input']))
+        return d
+
+
+def _plain(real):
+    if isinstance(real, dict):
+        return dict((k, v) for k, v in real.items() if k in (
+            'groups', 'rv_full', 'rfo', 'vp', 'tris', 'dd', 'faces', 'vertices'))
+    return real
+
+
+def _brief(inp):
+    s = repr(inp)
+    return s if len(s) < 300 else s[:300] + '…'
+
+
+RULES = {
+    'C20': 'one comparison = one input of a kind (grid: vertices+centroids+faces+from_grid; '
+           'domain_dimensions; remove: 4 model requests against the private methods and the 2 '
+           'public wrappers on a random tri/quad mesh; stl_split: all faces of a mesh; '
+           'from_polygon_grid: 5 stages); `model_requests` counts the driver requests.  non-trivial = '
+           'grid with >=1 cell in both directions / cell count other than 0 or 1 / some but not '
+           'all faces survive / a quad is split / the requested cell size is corrected and cells '
+           'are removed',
+    'C19': 'one comparison = all perimeter quads of one call of perimeter_core_by_offset '
+           '(convex lattice polygons and rectangles, both orientations, 0-3 holes of both '
+           'orientations; prescribed dyadic offset loops compared exactly, real offset loops '
+           'within 1e-9); non-trivial = the call has at least one hole',
+    'C09': 'one comparison = the grouping (outer, holes…) of one laminar family of rectangles, '
+           'regions handed over in random order and orientation; non-trivial = nesting depth '
+           '>= 1 (histogram `branch` gives the depths 0…4)',
+}
+
+
+# ====================================================================== generators C20
+def dy(rng, den=8, lo=-40, hi=40):
+    return rng.randint(lo, hi) / float(den)
+
+
+def rand_mesh(rng, big=False):
+    nv = rng.randint(4, 30 if big else 14)
+    nf = rng.randint(1, 30 if big else 12)
+    faces = []
+    for _ in range(nf):
+        k = rng.choice([3, 4])
+        faces.append(rng.sample(range(nv), k))
+    return nv, faces
+
+
+def gen_c20(E, seed):
+    # ---------------- fixed corpus
+    for nx, ny in ((0, 0), (0, 3), (2, 0), (1, 1), (2, 3), (3, 1)):
+        E.add('grid', {'bx': 0.5, 'by': -1.25, 'nx': nx, 'ny': ny, 'xd': 0.5, 'yd': 1.5}, 'fixed')
+    E.add('grid', {'bx': 0.0, 'by': 0.0, 'nx': 2, 'ny': 2, 'xd': -0.5, 'yd': 0.25}, 'fixed')
+    for dom, dim in (('1', '0'), ('0', '1'), ('0', '0'), ('10', '3'), ('9', '3'), ('1', '3'),
+                     ('-10', '3'), ('10', '-3'), ('-1', '3'), ('7/2', '1/2'), ('7/2', '3/10'),
+                     ('29/10', '1'), ('3', '1'), ('1/1000', '1/10')):
+        E.add('domain_dimensions', {'dom': dom, 'dim': dim}, 'fixed')
+    for dom, dim in ((7.5, 0.25), (7.5, 2.0), (0.0, 0.0), (3.0, 0.0), (0.125, 4.0), (-6.0, 4.0)):
+        E.add('domain_dimensions', {'dom': dom, 'dim': dim}, 'fixed')
+    quad = {'nv': 6, 'faces': [[0, 1, 4, 3], [1, 2, 5, 4], [0, 1, 4], [3, 4, 5]]}
+    for pat in ([True] * 6, [False] * 6, [True, True, False, True, True, True],
+                [False, True, True, True, True, True], [True, True, True, True, True, False]):
+        for fp in ([True] * 4, [False] * 4, [True, False, False, True], [False, False, True, False]):
+            E.add('remove', dict(quad, pat=pat, fpat=fp), 'fixed')
+    E.add('stl_split', {'nv': 6, 'faces': [[0, 1, 4, 3], [1, 2, 5], [5, 4, 1, 2], [3, 4, 0]]},
+          'fixed')
+    E.add('from_polygon_grid', {'poly': [[0.0, 0.0], [4.0, 0.0], [4.0, 2.0], [2.0, 2.0], [2.0, 4.0],
+                                         [0.0, 4.0]], 'xd': 0.9, 'yd': 0.45}, 'fixed')
+    E.add('from_polygon_grid', {'poly': [[0.0, 0.0], [4.0, 0.0], [0.0, 4.0]], 'xd': 1.0, 'yd': 0.5},
+          'fixed')
+    E.add('from_polygon_grid', {'poly': [[1.0, 1.0], [3.0, 1.0], [3.0, 2.0], [1.0, 2.0]],
+                                'xd': 5.0, 'yd': 0.75}, 'fixed')
+    # ---------------- random
+    G = random.Random('%s/corr.grid/C20/grid' % seed)
+    D = random.Random('%s/corr.grid/C20/domain' % seed)
+    M = random.Random('%s/corr.grid/C20/remove' % seed)
+    S = random.Random('%s/corr.grid/C20/stl' % seed)
+    P = random.Random('%s/corr.grid/C20/pipeline' % seed)
+    scale = 14 if E.thorough else 1
+    for k in range(700 * scale):
+        if not E.more():
+            break
+        if k % 2 == 0:        # grids (dyadic: exact; every 5th real-valued: within 1e-9)
+            nx, ny = G.randint(0, 7), G.randint(0, 7)
+            if E.thorough and k % 20 == 0:
+                nx, ny = G.randint(0, 25), G.randint(0, 25)
+            if k % 10 == 8:
+                E.add('grid', {'bx': G.uniform(-50, 50), 'by': G.uniform(-50, 50), 'nx': nx,
+                               'ny': ny, 'xd': G.uniform(0.01, 5), 'yd': G.uniform(0.01, 5),
+                               'approx': True}, 'grid~real-valued')
+            else:
+                xd, yd = G.randint(1, 24) / 8.0, G.randint(1, 24) / 8.0
+                if G.random() < 0.1:
+                    xd = -xd
+                E.add('grid', {'bx': dy(G, 4), 'by': dy(G, 4), 'nx': nx, 'ny': ny, 'xd': xd,
+                               'yd': yd}, 'grid dyadic')
+        # domain dimensions on Fractions (and dyadic doubles)
+        dom = Fraction(D.randint(0, 4000), D.choice([1, 3, 7, 8, 10, 100]))
+        dim = Fraction(D.randint(1, 900), D.choice([1, 3, 7, 8, 10, 100]))
+        if D.random() < 0.15:
+            dom = dim * D.randint(0, 12)          # exact multiples
+        if D.random() < 0.05:
+            dom = -dom
+        if D.random() < 0.03:
+            dim = -dim
+        if D.random() < 0.02:
+            dim = Fraction(0)
+        E.add('domain_dimensions', {'dom': W(dom), 'dim': W(dim)}, 'domain Fractions')
+        if k % 4 == 0:
+            E.add('domain_dimensions', {'dom': D.randint(0, 4000) / 16.0,
+                                        'dim': D.randint(1, 400) / 16.0}, 'domain dyadic doubles')
+        # removal on random tri/quad meshes
+        nv, faces = rand_mesh(M, big=E.thorough and k % 5 == 0)
+        p_keep = M.choice([0.4, 0.7, 0.85, 0.95, 1.0])
+        E.add('remove', {'nv': nv, 'faces': faces, 'pat': [M.random() < p_keep for _ in range(nv)],
+                         'fpat': [M.random() < 0.6 for _ in faces]}, 'random mesh')
+        if k % 5 == 0:
+            nv, faces = rand_mesh(S)
+            E.add('stl_split', {'nv': nv, 'faces': faces}, 'random mesh')
+        if k % 5 == 1:        # from_polygon_grid
+            w, h = float(P.randint(2, 12)), float(P.randint(2, 12))
+            shape = P.choice(['rect', 'L', 'tri', 'U'])
+            if shape == 'rect':
+                vs = [(0, 0), (w, 0), (w, h), (0, h)]
+            elif shape == 'L':
+                vs = [(0, 0), (w, 0), (w, h / 2), (w / 2, h / 2), (w / 2, h), (0, h)]
+            elif shape == 'U':
+                vs = [(0, 0), (w, 0), (w, h), (3 * w / 4, h), (3 * w / 4, h / 4), (w / 4, h / 4),
+                      (w / 4, h), (0, h)]
+            else:
+                vs = [(0, 0), (w, 0), (0, h)]
+            if P.random() < 0.3:
+                vs = vs[::-1]
+            ox, oy = dy(P, 4), dy(P, 4)
+            numx, numy = P.choice([1, 2, 4, 8]), P.choice([1, 2, 4, 8])
+            # requested sizes that do NOT divide the extent but give exactly numx / numy cells
+            xd = w / numx - (w / numx - w / (numx + 1)) / 4
+            yd = h / numy - (h / numy - h / (numy + 1)) / 2
+            E.add('from_polygon_grid', {'poly': [[x + ox, y + oy] for x, y in vs], 'xd': xd,
+                                        'yd': yd}, 'polygon ' + shape)
+
+
+# ====================================================================== generators C19
+def lattice_convex(rng, cx, cy, r, n, cw=False):
     """A convex polygon with dyadic coordinates around (cx, cy)."""
-    import math
     ps = []
     a0 = rng.random()
     for i in range(n):
         a = 2 * math.pi * (i + a0) / n
-        ps.append((round((cx + r * math.cos(a)) * 4) / 4.0, round((cy + r * math.sin(a)) * 4) / 4.0))
+        ps.append((round((cx + r * math.cos(a)) * 4) / 4.0,
+                   round((cy + r * math.sin(a)) * 4) / 4.0))
     out = []
     for p in ps:
         if not out or out[-1] != p:
@@ -166,80 +961,84 @@ def scaled(ps, c, k):
     return [(c[0] + k * (x - c[0]), c[1] + k * (y - c[1])) for x, y in ps]
 
 
-n_quads = 0
-while n_quads < 160:
-    n = rng.randint(3, 9)
-    cw_outer = rng.random() < 0.3
-    outer = lattice_convex(0.0, 0.0, 16.0, n, cw_outer)
-    if len(outer) < 3:
-        continue
-    inner = scaled(outer, (0.0, 0.0), rng.choice([0.5, 0.75, 0.875]))
-    poly = StubPoly([Point2D(*p) for p in outer])
-    poly._stub_inner = Polygon2D([Point2D(*p) for p in inner])
-    holes_arg, holes_wire = None, []
-    if rng.random() < 0.6:
-        holes_arg = []
-        for (hx, hy) in rng.sample([(-3.0, -3.0), (3.0, 3.0), (-3.0, 3.0), (3.0, -3.0)],
-                                   rng.randint(1, 3)):
-            cwh = rng.random() < 0.5
-            h = lattice_convex(hx, hy, 1.0, rng.randint(3, 6), cwh)
-            if len(h) < 3:
+def gen_c19(E, seed):
+    sq = [(0.0, 0.0), (8.0, 0.0), (8.0, 8.0), (0.0, 8.0)]
+    hole = [(3.0, 3.0), (5.0, 3.0), (5.0, 5.0), (3.0, 5.0)]
+    for outer in (sq, sq[::-1]):
+        inner = scaled(outer, (4.0, 4.0), 0.75)
+        E.add('perimeter_quads', {'outer': outer, 'inner': inner, 'holes': None, 'distance': 1.0},
+              'fixed')
+        E.add('perimeter_quads', {'outer': outer, 'inner': inner, 'holes': [], 'distance': 1.0},
+              'fixed')
+        for h in (hole, hole[::-1]):
+            ho = scaled(h, (4.0, 4.0), 1.5)
+            E.add('perimeter_quads', {'outer': outer, 'inner': inner, 'holes': [[h, ho]],
+                                      'distance': 1.0}, 'fixed')
+            E.add('perimeter_quads', {'outer': outer, 'inner': None, 'holes': [[h, None]],
+                                      'distance': 0.5}, 'fixed~real offset')
+        E.add('perimeter_quads', {'outer': outer, 'inner': None, 'holes': None, 'distance': 0.5},
+              'fixed~real offset')
+        E.add('perimeter_quads', {'outer': outer, 'inner': None, 'holes': None, 'distance': 5.0},
+              'fixed~real offset')
+    Q = random.Random('%s/corr.grid/C19/stub' % seed)
+    A = random.Random('%s/corr.grid/C19/real-offset' % seed)
+    scale = 14 if E.thorough else 1
+    for k in range(600 * scale):
+        if not E.more():
+            break
+        # prescribed offset loops (exact)
+        n = Q.randint(3, 9)
+        outer = lattice_convex(Q, 0.0, 0.0, 16.0, n, Q.random() < 0.3)
+        if len(outer) >= 3:
+            inner = scaled(outer, (0.0, 0.0), Q.choice([0.5, 0.75, 0.875]))
+            holes = None
+            if Q.random() < 0.6:
+                holes = []
+                for (hx, hy) in Q.sample([(-3.0, -3.0), (3.0, 3.0), (-3.0, 3.0), (3.0, -3.0)],
+                                         Q.randint(1, 3)):
+                    h = lattice_convex(Q, hx, hy, 1.0, Q.randint(3, 6), Q.random() < 0.5)
+                    if len(h) >= 3:
+                        holes.append([h, scaled(h, (hx, hy), 1.5)])
+            E.add('perimeter_quads', {'outer': outer, 'inner': inner, 'holes': holes,
+                                      'distance': 1.0}, 'prescribed offset')
+        if k % 2 == 0:
+            continue
+        # the real offset (doubles inside offset; the model gets the real core loops)
+        d = A.choice([0.25, 0.5, 0.3, 0.7])
+        if A.random() < 0.5:
+            w, h = A.randint(4, 12) * 1.0, A.randint(4, 12) * 1.0
+            outer = [(0.0, 0.0), (w, 0.0), (w, h), (0.0, h)]
+            if A.random() < 0.3:
+                outer.reverse()
+            holes = None
+            if A.random() < 0.5:
+                hv = [(w / 2 - 0.5, h / 2 - 0.5), (w / 2 + 0.5, h / 2 - 0.5),
+                      (w / 2 + 0.5, h / 2 + 0.5), (w / 2 - 0.5, h / 2 + 0.5)]
+                if A.random() < 0.5:
+                    hv.reverse()
+                holes = [[hv, None]]
+            stream = 'rectangle~real offset'
+        else:
+            outer = lattice_convex(A, 0.0, 0.0, 16.0, A.randint(3, 8), A.random() < 0.3)
+            if len(outer) < 3:
                 continue
-            ho = scaled(h, (hx, hy), 1.5)
-            hp = StubPoly([Point2D(*p) for p in h])
-            hp._stub_inner = Polygon2D([Point2D(*p) for p in ho])
-            holes_arg.append(hp)
-            holes_wire.append([pts(hp.vertices), pts(hp._stub_inner.vertices)])
-    per, core = Polygon2D.perimeter_core_by_offset(poly, 1.0, holes_arg)
-    if per is None:
-        continue
-    exp = [[[Fraction(p.x), Fraction(p.y)] for p in q.vertices] for q in per]
-    if holes_arg is None:
-        add('model.perimeter_quads', [pts(poly.vertices), pts(poly._stub_inner.vertices)], exp,
-            'perimeter_quads')
-    else:
-        add('model.perimeter_quads_holes',
-            [pts(poly.vertices), pts(poly._stub_inner.vertices), holes_wire], exp,
-            'perimeter_quads_holes')
-    n_quads += 1
-
-# with the REAL offset (double arithmetic inside offset; the model gets the real core loop and
-# must reproduce the quads up to the rounding of p1 + (p2 - p1))
-approx = []
-for _ in range(80):
-    w, h = rng.randint(4, 12) * 1.0, rng.randint(4, 12) * 1.0
-    outer = [Point2D(0, 0), Point2D(w, 0), Point2D(w, h), Point2D(0, h)]
-    if rng.random() < 0.3:
-        outer.reverse()
-    poly = Polygon2D(outer)
-    d = rng.choice([0.25, 0.5, 0.3, 0.7])
-    holes = None
-    if rng.random() < 0.5:
-        hv = [Point2D(w / 2 - 0.5, h / 2 - 0.5), Point2D(w / 2 + 0.5, h / 2 - 0.5),
-              Point2D(w / 2 + 0.5, h / 2 + 0.5), Point2D(w / 2 - 0.5, h / 2 + 0.5)]
-        if rng.random() < 0.5:
-            hv.reverse()
-        holes = [Polygon2D(hv)]
-    per, core = Polygon2D.perimeter_core_by_offset(poly, d, holes)
-    if per is None:
-        continue
-    exp = [[[Fraction(p.x), Fraction(p.y)] for p in q.vertices] for q in per]
-    if holes is None:
-        approx.append(len(reqs))
-        add('model.perimeter_quads', [pts(poly.vertices), pts(core[0].vertices)], exp,
-            'perimeter_quads~real_offset')
-    else:
-        approx.append(len(reqs))
-        add('model.perimeter_quads_holes',
-            [pts(poly.vertices), pts(core[0].vertices),
-             [[pts(hh.vertices), pts(cc.vertices)] for hh, cc in zip(holes, core[1:])]], exp,
-            'perimeter_quads_holes~real_offset')
+            holes = None
+            if A.random() < 0.6:
+                holes = []
+                for (hx, hy) in A.sample([(-3.0, -3.0), (3.0, 3.0), (-3.0, 3.0), (3.0, -3.0)],
+                                         A.randint(1, 3)):
+                    h = lattice_convex(A, hx, hy, 1.0, A.randint(3, 6), A.random() < 0.5)
+                    if len(h) >= 3:
+                        holes.append([h, None])
+            stream = 'convex~real offset'
+        E.add('perimeter_quads', {'outer': outer, 'inner': None, 'holes': holes, 'distance': d},
+              stream)
 
 
-# ---------------------------------------------------------------- grouping of boolean loops
-def laminar(depth_max=4):
-    """Random laminar family of axis-aligned rectangles (strictly nested or disjoint) with
-    pairwise distinct areas.  Returns list of (x0, y0, x1, y1)."""
+# ====================================================================== generators C09
+def laminar(rng, depth_max=4):
+    """Random laminar family of axis-aligned rectangles (strictly nested or disjoint).
+    Returns list of (x0, y0, x1, y1)."""
     rects = []
 
     def fill(x0, y0, x1, y1, depth):
@@ -249,8 +1048,7 @@ def laminar(depth_max=4):
         k = rng.randint(0, 2)
         if k == 0:
             return
-        # split the interior into k side-by-side slots with margins
-        wslot = (x1 - x0 - 2) / k
+        wslot = (x1 - x0 - 2) / k      # k side-by-side slots with margins
         for i in range(k):
             if rng.random() < 0.8:
                 a0 = x0 + 1 + i * wslot + rng.randint(1, 2)
@@ -260,153 +1058,99 @@ def laminar(depth_max=4):
                 if a1 - a0 >= 2 and b1 - b0 >= 2:
                     fill(a0, b0, a1, b1, depth + 1)
 
-    ntop = rng.randint(1, 3)
-    for t in range(ntop):
+    for t in range(rng.randint(1, 3)):
         fill(t * 200.0, 0.0, t * 200.0 + rng.randint(30, 150), float(rng.randint(10, 60)), 0)
     return rects
 
 
-def area(r):
-    return (r[2] - r[0]) * (r[3] - r[1])
+def nest(depth, x0=0.0, y0=0.0, w=100.0, h=60.0):
+    """depth+1 strictly nested rectangles."""
+    return [[x0 + 2 * i, y0 + i, x0 + w - 2 * i, y0 + h - i] for i in range(depth + 1)]
 
 
-def contains(a, b):
-    return a[0] < b[0] and a[1] < b[1] and b[2] < a[2] and b[3] < a[3]
+def gen_c09(E, seed):
+    # fixed: pure nests of depth 0…4 in both hand-over orders, siblings, two islands
+    for depth in range(5):
+        r = nest(depth)
+        if len(r) >= 2:
+            E.add('bool_group', {'rects': r, 'rev': [False] * len(r)}, 'fixed nest')
+            E.add('bool_group', {'rects': r[::-1], 'rev': [i % 2 == 0 for i in range(len(r))]},
+                  'fixed nest')
+        two = r + [[300.0, 0.0, 340.0, 7.0]]
+        E.add('bool_group', {'rects': two, 'rev': [False] * len(two)}, 'fixed nest+island')
+    sib = [[0.0, 0.0, 100.0, 50.0], [5.0, 5.0, 40.0, 45.0], [50.0, 5.0, 95.0, 44.0],
+           [10.0, 10.0, 30.0, 40.0], [55.0, 10.0, 90.0, 39.0], [12.0, 12.0, 20.0, 38.0],
+           [21.0, 12.0, 29.0, 37.0]]
+    E.add('bool_group', {'rects': sib, 'rev': [False] * 7}, 'fixed siblings')
+    E.add('bool_group', {'rects': sib[::-1], 'rev': [True] * 7}, 'fixed siblings')
+    B = random.Random('%s/corr.grid/C09/laminar' % seed)
+    scale = 14 if E.thorough else 1
+    n, tries = 0, 0
+    while n < 600 * scale and tries < 12000 * scale and E.more():
+        tries += 1
+        rects = laminar(B)
+        if len(set(_area(r) for r in rects)) != len(rects) or len(rects) < 2:
+            continue
+        B.shuffle(rects)
+        E.add('bool_group', {'rects': [list(r) for r in rects],
+                             'rev': [B.random() < 0.5 for _ in rects]}, 'laminar')
+        n += 1
 
 
-n_grp = 0
-tries = 0
-depth_hist = {}
-while n_grp < 120 and tries < 3000:
-    tries += 1
-    rects = laminar()
-    if len(set(area(r) for r in rects)) != len(rects) or len(rects) < 2:
-        continue
-    rng.shuffle(rects)
-    regions = []
-    for r in rects:
-        loop = [(r[0], r[1]), (r[2], r[1]), (r[2], r[3]), (r[0], r[3])]
-        if rng.random() < 0.5:
-            loop.reverse()
-        regions.append(loop)
-    faces = Face3D._from_bool_poly(BooleanPolygon(regions), Plane(), 0.01)
-    srt = sorted(rects, key=area, reverse=True)
-
-    def ident(loop3d):
-        xs = [p.x for p in loop3d]
-        ys = [p.y for p in loop3d]
-        key = (min(xs), min(ys), max(xs), max(ys))
-        return srt.index(key)
-
-    exp = []
-    for f in faces:
-        g = [ident(f.boundary)] + [ident(hh) for hh in (f.holes or ())]
-        exp.append([Fraction(i) for i in g])
-    n = len(srt)
-    inside = [[contains(srt[a], srt[b]) for b in range(n)] for a in range(n)]
-    add('model.bool_group', [n, inside], exp, 'bool_group')
-    depth_hist[max(sum(inside[a][b] for a in range(n)) for b in range(n))] = \
-        depth_hist.get(max(sum(inside[a][b] for a in range(n)) for b in range(n)), 0) + 1
-    n_grp += 1
-
-# ---------------------------------------------------------------- from_polygon_grid pipeline
-# real Mesh2D.from_polygon_grid  vs  model: domain_dimensions -> grid_vertices/faces ->
-# remove_vertices (inside pattern taken from the real is_point_inside), cached face area.
-from ladybug_geometry.geometry2d.pointvector import Vector2D  # noqa: E402
-pipe = []
-for _ in range(60):
-    w, h = float(rng.randint(2, 12)), float(rng.randint(2, 12))
-    shape = rng.choice(['rect', 'L', 'tri'])
-    if shape == 'rect':
-        vs = [(0, 0), (w, 0), (w, h), (0, h)]
-    elif shape == 'L':
-        vs = [(0, 0), (w, 0), (w, h / 2), (w / 2, h / 2), (w / 2, h), (0, h)]
+# ====================================================================== interface
+def run(ctx, prop):
+    E = _Engine(ctx, prop)
+    if prop == 'C20':
+        gen_c20(E, ctx.seed)
+    elif prop == 'C19':
+        gen_c19(E, ctx.seed)
+    elif prop == 'C09':
+        gen_c09(E, ctx.seed)
     else:
-        vs = [(0, 0), (w, 0), (0, h)]
-    ox, oy = dy(4), dy(4)
-    poly = Polygon2D([Point2D(x + ox, y + oy) for x, y in vs])
-    numx, numy = rng.choice([1, 2, 4, 8]), rng.choice([1, 2, 4, 8])
-    # requested sizes that do NOT divide the extent but give exactly numx / numy cells
-    xd = w / numx - (w / numx - w / (numx + 1)) / 4
-    yd = h / numy - (h / numy - h / (numy + 1)) / 2
-    try:
-        mesh = Mesh2D.from_polygon_grid(poly, xd, yd)
-    except AssertionError:
-        continue
-    dom_x, dom_y = poly.max.x - poly.min.x, poly.max.y - poly.min.y
-    pipe.append((poly, xd, yd, dom_x, dom_y, mesh))
-drv = lbg.Driver()
-st1 = drv.run([('model.domain_dimensions', [W(dx_), W(d_)]) for (pl, xd, yd, dmx, dmy, m) in pipe
-               for (dx_, d_) in ((dmx, xd), (dmy, yd))])
-pipe_bad = 0
-st2_reqs, st2_meta = [], []
-for k, (poly, xd, yd, dmx, dmy, mesh) in enumerate(pipe):
-    (ok1, r1), (ok2, r2) = st1[2 * k], st1[2 * k + 1]
-    assert ok1 and ok2
-    xd2, nx = R(r1[0]), int(r1[1])
-    yd2, ny = R(r2[0]), int(r2[1])
-    real_xd2, real_nx = Mesh2D._domain_dimensions(dmx, xd)
-    real_yd2, real_ny = Mesh2D._domain_dimensions(dmy, yd)
-    if (Fraction(real_xd2), real_nx, Fraction(real_yd2), real_ny) != (xd2, nx, yd2, ny):
-        print('PIPE domain mismatch', (real_xd2, real_nx, real_yd2, real_ny), (xd2, nx, yd2, ny))
-        pipe_bad += 1
-        continue
-    verts = Mesh2D._grid_vertices(poly.min, nx, ny, real_xd2, real_yd2)
-    tol_pt = Vector2D(0.0000001, 0.0000001)
-    scaled_poly = Polygon2D(tuple(pt.scale(1.000001, poly.min) - tol_pt for pt in poly.vertices))
-    pattern = [scaled_poly.is_point_inside(_v) for _v in verts]
-    st2_reqs.append(('model.grid_vertices', [W(poly.min.x), W(poly.min.y), nx, ny, W(xd2), W(yd2)]))
-    st2_reqs.append(('model.grid_faces', [nx, ny]))
-    st2_meta.append((k, nx, ny, pattern, xd2, yd2))
-st2 = drv.run(st2_reqs)
-st3_reqs = []
-for j, (k, nx, ny, pattern, xd2, yd2) in enumerate(st2_meta):
-    faces = st2[2 * j + 1][1]
-    st3_reqs.append(('model.remove_vertices_full', [(nx + 1) * (ny + 1), faces, pattern]))
-st3 = drv.run(st3_reqs)
-for j, (k, nx, ny, pattern, xd2, yd2) in enumerate(st2_meta):
-    mesh = pipe[k][5]
-    gv = canon(st2[2 * j][1])
-    ok, r = st3[j]
-    keep_ids, new_faces = [int(i) for i in canon(r[0])], canon(r[1])
-    model_verts = [gv[i] for i in keep_ids]
-    real_verts = [[Fraction(p.x), Fraction(p.y)] for p in mesh.vertices]
-    real_faces = [[Fraction(i) for i in f] for f in mesh.faces]
-    areas = set(Fraction(a) for a in mesh.face_areas)
-    good = (model_verts == real_verts and new_faces == real_faces and areas == {xd2 * yd2}
-            and xd2 * yd2 != Fraction(pipe[k][1]) * Fraction(pipe[k][2]))
-    recomputed = set(Fraction(Mesh2D._get_area([mesh.vertices[i] for i in f])) for f in mesh.faces)
-    good = good and recomputed == {xd2 * yd2}
-    if not good:
-        pipe_bad += 1
-        print('PIPE mismatch case', k)
-print('%-36s %4d compared  %d disagree' % ('from_polygon_grid pipeline', len(pipe), pipe_bad))
+        return {'requests': 0, 'nontrivial': 0, 'rule': 'no model of %s here' % prop,
+                'disagreements': [], 'float_ties': 0, 'histograms': {}, 'samples': []}
+    return E.run()
 
-# ---------------------------------------------------------------- run
-res = drv.run(reqs)
-bad = 0
-counts = {}
-for i, ((ok, val), exp, lab) in enumerate(zip(res, expect, label)):
-    counts.setdefault(lab, [0, 0])
-    counts[lab][0] += 1
-    if not ok:
-        print('ERR', lab, reqs[i], val)
-        bad += 1
-        counts[lab][1] += 1
-        continue
-    got = canon(val)
-    if i in approx:
-        fa, fb = lbg.flat_numbers(got), lbg.flat_numbers(exp)
-        same = len(fa) == len(fb) and all(abs(x - y) <= Fraction(1, 10**12) for x, y in zip(fa, fb))
-    else:
-        same = got == exp
-    if not same:
-        bad += 1
-        counts[lab][1] += 1
-        if counts[lab][1] <= 3:
-            print('MISMATCH', lab, reqs[i][1], '\n  model:', got, '\n  real: ', exp)
-for lab, (n, b) in sorted(counts.items()):
-    print('%-36s %4d compared  %d disagree' % (lab, n, b))
-print('bool_group max nesting depth histogram:', sorted(depth_hist.items()))
-print('TOTAL %d requests, %d disagreements' % (len(reqs) + len(pipe), bad + pipe_bad))
-sys.exit(1 if (bad or pipe_bad) else 0)
+
+def replay(ctx, disagreement):
+    """Re-run one recorded disagreement (its 'kind' and 'input') on the current tree."""
+    kind, inp = disagreement.get('kind'), disagreement.get('input')
+    if kind not in KINDS or inp is None:
+        return None
+    r = _Engine(ctx, KINDS[kind].prop).one(kind, inp)
+    return r if isinstance(r, dict) else None
+
+
+if __name__ == '__main__':
+    class Ctx(object):
+        pass
+    args = sys.argv[1:]
+    props = [a for a in args if a in PROPS] or PROPS
+    nums = [a for a in args if a.lstrip('-').isdigit()]
+    ctx = Ctx()
+    ctx.seed = int(nums[0]) if nums else int(os.environ.get('VERIF_SEED', '0'))
+    ctx.tier = 'thorough' if 'thorough' in args else os.environ.get('VERIF_TIER', 'quick')
+    ctx.broken = []
+    ctx.driver = lbg.Driver()
+    bad = 0
+    for prop in props:
+        ctx.deadline = time.time() + 3600
+        t = time.time()
+        r = run(ctx, prop)
+        print('%s seed %d %s: %d comparisons (%d model requests), %d non-trivial, %d float ties, '
+              '%d disagreements, %.1fs' % (prop, ctx.seed, ctx.tier, r['requests'],
+                                          r['model_requests'], r['nontrivial'], r['float_ties'],
+                                          len(r['disagreements']), time.time() - t))
+        for h in sorted(r['histograms']):
+            if h != 'size':
+                print('   %-8s %s' % (h, sorted(r['histograms'][h].items())))
+        for s in r['samples']:
+            print('   sample', s)
+        for d in r['disagreements']:
+            bad += 1
+            print('   DISAGREE', d['what'][:500])
+            print('            input', _brief(d['input']))
+            import json
+            again = replay(ctx, json.loads(json.dumps(d, default=lbg._json_default)))
+            print('            replay:', 'reproduced' if again else 'NOT reproduced')
+    sys.exit(1 if bad else 0)
